@@ -748,8 +748,8 @@ func genC15(w *bufio.Writer, seed int64, n int, tier string) {
 			vsize = []int{4096, 16384, 30000}[r.Intn(3)]
 		}
 		if k == "lag-tx-tail" {
-			// 89 puts + the workload's 5 two-key transactions = 99 entries, then the tail transaction
-			fmt.Fprintf(w, "case g%d-%d probe=lag-tx-tail healthy=%d puts=89 vsize=64 bound=5 hbint=500 hbto=2000\nend\n", seed, i, r.Intn(2))
+			// 4 baseline puts + 85 puts + the workload's 5 two-key transactions = 99 entries, then the tail transaction
+			fmt.Fprintf(w, "case g%d-%d probe=lag-tx-tail healthy=%d puts=85 vsize=64 bound=5 hbint=500 hbto=2000\nend\n", seed, i, r.Intn(2))
 			continue
 		}
 		if k == "writer-vs-poll" && healthy == 0 {
